@@ -176,13 +176,28 @@ impl TransitivityProof {
 }
 
 // replaces 'private' slots with enumerated slot-names, like a shape.
+// The numbering only depends on the private slots themselves (in order of their first occurrence), not on
+// how many public slots occur before them: two congruent nodes can invoke child classes that have a
+// different number of (redundant) slots.
 pub(crate) fn alpha_normalize<L: Language>(n: &L) -> L {
-    let (sh, bij) = n.weak_shape();
-    if CHECKS {
-        let all_slots: SmallHashSet<_> = sh.all_slot_occurrences().into_iter().collect();
-        assert!(&bij.values().is_disjoint(&all_slots));
+    let mut c = n.clone();
+    let mut renaming = SlotMap::new();
+    for x in c.private_slot_occurrences_mut() {
+        let y = match renaming.get(*x) {
+            Some(y) => y,
+            None => {
+                let y = Slot::numeric(renaming.len() as u32);
+                renaming.insert(*x, y);
+                y
+            }
+        };
+        *x = y;
     }
-    sh.apply_slotmap(&bij)
+    if CHECKS {
+        let public: SmallHashSet<_> = c.public_slot_occurrences().into_iter().collect();
+        assert!(&renaming.values().is_disjoint(&public));
+    }
+    c
 }
 
 impl CongruenceProof {
